@@ -165,13 +165,14 @@ PLANS["C02"] = {
             "with recording on while the dump hook records D0..Dn (n <= 400); then a seeded walk of 3n+6 rnext/next moves, a full rewind "
             "(plus one rnext at the start, which must be a no-op) and a full replay; after every move the machine state (ip, data stack "
             "incl. hidden part, frames with locals, loop records, builder marks, every heap cell) must equal the dump recorded for that "
-            "position. A step that fails ends the history: re-executing it from the rewound point must fail identically. distinct = "
+            "position. A step that fails ends the history: re-executing it from the rewound point must fail identically. One case in 3000 is a long history instead (a counted loop of 9000..14000 turns over variable stores, calls with locals or vector builders: "
+            "50 000 - 170 000 steps, several hundred thousand log records), walked 300 random moves, rewound to the start and replayed to the end. distinct = "
             "distinct instruction traces of >= 5 steps",
     "assumptions": ["a failed step is not a completed step: one rnext after it must restore the state before it, or (when the failed "
                     "instruction logged nothing) the state one instruction earlier; both are accepted",
                     "stepping forward again *after* a failure without rewinding is outside the statement and not checked",
                     "sources that fail to build are skipped and counted"],
-    "require": [need("moves_checked", 2000000), need_set("reverse_step_variants", 15), need_set("opcodes", 18), need_set("insn_and_log", 120),
+    "require": [need("moves_checked", 2000000), need_set("reverse_step_variants", 15), need_set("opcodes", 18), need_set("insn_and_log", 120), need("long_histories_rewound_and_replayed", 40),
                 need("histories_ending_in_failed_step", 1000), need("rnext_at_start_is_noop", 10000), need_set("features", 30)],
 }
 
@@ -195,7 +196,8 @@ PLANS["C03"] = {
     "require": [need("clone_points", 20000), need("immutability_checks", 1000000), need("replayed_ops", 100000),
                 need("ops_on_copy_with_shared_bitstr_buffer", 50000), need("final_states_compared", 10000),
                 need("stmt:resolve-late", 1000), need("stmt:stack-only-slice-then-mutate", 1000), need("stmt:mutate-top-of-stack", 1000),
-                need("op:step", 10000), need("capi_snapshots", 1000), need("copies_dropped", 5000)],
+                need("op:step", 10000), need("capi_snapshots", 1000), need("copies_dropped", 5000),
+                need("stmt:refused-nested-conversion", 1000), need("stmt:nested-conversion", 1000)],
 }
 
 PLANS["C14"] = {
